@@ -16,11 +16,20 @@ VALID = {1, 2, 3, 4}
 _classes = {}
 
 
+_BADREP = [0]     # which representative of the specification's Invalid item: 0 a string, 1 the Undefined sentinel, 2 None
+VIAS = ["assign", "assign", "assign", "ctor", "deepcopy", "clone", "copy_traits", "pickle", "share"]
+
+
 def conc_item(x):
     if x in VALID:
         return x
     if x in (11, 12, 13):
         return str(x - 10)
+    if _BADREP[0] == 1:
+        from traits.api import Undefined
+        return Undefined
+    if _BADREP[0] == 2:
+        return None
     return "bad"
 
 
@@ -66,9 +75,42 @@ def get_class(cfg):
         tr = Dict(T(cfg["kvm"]), List(T(cfg["vm"]), minlen=cfg["ilo"], maxlen=mx(cfg["ihi"])))
     else:
         raise MachineryError(kind)
-    cls = type("H_%d" % len(_classes), (HasTraits,), {"xs": tr})
+    name = "H_%d" % len(_classes)
+    cls = type(name, (HasTraits,), {"xs": tr, "__module__": __name__})
+    globals()[name] = cls            # so that instances pickle
     _classes[key] = cls
     return cls
+
+
+def establish(cls, kind, pre, via):
+    """an object whose attribute holds `pre`, obtained by the given route (the specification's Transfer: the value of a
+    container attribute is the same after any of them, and the attribute is governed by the same trait)"""
+    import copy
+    import gc
+    import pickle
+    if via == "ctor":
+        return cls(xs=conc_pre(kind, pre))
+    src = cls()
+    src.xs = conc_pre(kind, pre)
+    if via == "assign":
+        return src
+    if via == "deepcopy":
+        return copy.deepcopy(src)
+    if via == "clone":
+        return src.clone_traits()
+    if via == "copy_traits":
+        obj = cls()
+        obj.copy_traits(src)
+        return obj
+    if via == "pickle":
+        return pickle.loads(pickle.dumps(src))
+    if via == "share":
+        obj = cls()
+        obj.xs = src.xs          # the other object's container object, same trait
+        del src
+        gc.collect()
+        return obj
+    raise MachineryError("via " + via)
 
 
 def conc_pre(kind, pre):
@@ -195,18 +237,28 @@ class PreStateError(Exception):
     """the pre-state is not a legal value of the trait (only after an already reported violation)"""
 
 
-def execute(cfg, pre, op, sub, a, xs, cs):
+def execute(cfg, pre, op, sub, a, xs, cs, via="assign", badrep=0):
+    _BADREP[0] = badrep
+    try:
+        r = _execute(cfg, pre, op, sub, a, xs, cs, via)
+    finally:
+        _BADREP[0] = 0
+    r["badrep"] = badrep
+    return r
+
+
+def _execute(cfg, pre, op, sub, a, xs, cs, via):
     build.install()
     from traits.trait_errors import TraitError
     kind = cfg["kind"]
     cls = get_class(cfg)
-    obj = cls()
     try:
-        obj.xs = conc_pre(kind, pre)
+        obj = establish(cls, kind, pre, via)
     except TraitError:
         raise PreStateError(pre)
-    if proj_val(kind, obj.xs) != pre:
-        raise MachineryError("cannot establish pre-state %r for %r: got %r" % (pre, cfg, proj_val(kind, obj.xs)))
+    viapre = proj_val(kind, obj.xs)
+    if via == "assign" and viapre != pre:
+        raise MachineryError("cannot establish pre-state %r for %r: got %r" % (pre, cfg, viapre))
     items_events = []
     change_events = []
 
@@ -267,7 +319,8 @@ def execute(cfg, pre, op, sub, a, xs, cs):
     else:
         pret = NONE if ret is None else proj(ret)
     return {"cfg": cfg, "kind": kind, "op": op, "sub": sub, "a": list(a), "xs": xs, "cs": cs, "pre": pre, "post": post,
-            "exc": exc, "ret": pret, "nitems": len(items_events), "nchange": len(change_events), "evs": evs}
+            "exc": exc, "ret": pret, "nitems": len(items_events), "nchange": len(change_events), "evs": evs,
+            "via": via, "viapre": viapre}
 
 
 def _plain(v):
@@ -290,7 +343,9 @@ def case_fn(st, rep):
     cs = _plain(last["cs"])
     if kind == "set":
         cs = [sorted(A) if isinstance(A, list) else ({"isset": A["isset"], "items": sorted(A["items"])}) for A in cs]
-    r = execute(cfg, pre, last["op"], last["sub"], list(last["a"]), xs, cs)
+    if rep == 1 and "99" not in json.dumps([xs, cs, list(last["a"])]):
+        return None          # second representative of the Invalid item (Undefined): only cases that use it
+    r = execute(cfg, pre, last["op"], last["sub"], list(last["a"]), xs, cs, badrep=rep)
     return {"fail": None, "line": r, "sample": r}
 
 
@@ -431,7 +486,7 @@ def history_lines(seed, ntraces, steps):
                 else:
                     op, sub, a = "delitem", "outer", [rnd.choice([1, 2, 3]), 0, 0]
             try:
-                r = execute(cfg, cur, op, sub, a, xs, cs)
+                r = execute(cfg, cur, op, sub, a, xs, cs, via=rnd.choice(VIAS), badrep=rnd.choice([0, 0, 1, 2]))
             except PreStateError:
                 break       # the previous step left an illegal value; the judge rejects that step
             r["tid"] = t
@@ -447,7 +502,9 @@ def sig_of(rec, cl):
         return "C04:KF14:dict-setdefault-raw-key-absent-validated-present"
     if cl == ["KF15"]:
         return "C04:KF15:set-symmetric-difference-raw-item-absent-validated-present"
-    return "C04:judge:%s:%s%s:%s" % (rec["kind"], rec["sub"] + "." if rec["sub"] else "", rec["op"], "+".join(cl))
+    return "C04:judge:%s:%s%s%s%s:%s" % (rec["kind"], rec["sub"] + "." if rec["sub"] else "", rec["op"],
+                                         ":after-" + rec["via"] if rec.get("via", "assign") != "assign" else "",
+                                         ":invalid-item-rep%d" % rec["badrep"] if rec.get("badrep") else "", "+".join(cl))
 
 
 def run(rep, tier, seed):
@@ -463,7 +520,7 @@ def run(rep, tier, seed):
                           heap="6g" if tier == "quick" else "16g")
         rep.add_tlc("ContainerTraitsMC_cases", res)
         trace = os.path.join(work, "trace.ndjson")
-        tot = cases.run_dump_cases(dump + ".dump", case_fn, out_ndjson=trace)
+        tot = cases.run_dump_cases(dump + ".dump", case_fn, out_ndjson=trace, reps=2)
         os.unlink(dump + ".dump")
         if tot["ncases"] == 0:
             raise MachineryError("no cases in dump")
@@ -497,6 +554,7 @@ def replay(rep, path):
     build.install()
     obj = json.load(open(path))
     rec = (obj.get("case") or {}).get("record")
-    r = execute(rec["cfg"], rec["pre"], rec["op"], rec["sub"], rec["a"], rec["xs"], rec["cs"])
+    r = execute(rec["cfg"], rec["pre"], rec["op"], rec["sub"], rec["a"], rec["xs"], rec["cs"], rec.get("via", "assign"),
+                rec.get("badrep", 0))
     print("recorded:", rec)
     print("now     :", r)
